@@ -98,7 +98,12 @@ def parseHist (s : String) : Option SBuf.SBuf :=
     | _ => none
   else none
 
-def showPanic (k : PanicKind) : String := "panic " ++ k.toString
+/-- Go does not fix the evaluation order of index vs. slice expressions inside one composite
+    literal, so which of the two bounds panics fires first is not observable: both are `oob`. -/
+def showPanic (k : PanicKind) : String :=
+  match k with
+  | .index | .slice => "panic oob"
+  | k => "panic " ++ k.toString
 
 def doSer (st : St) (fix csum : Bool) (b0 : SBuf.SBuf) (payload : Bytes) : St × String :=
   match st.cur with
